@@ -117,6 +117,9 @@ func execC12Pair(t *testing.T, sc *kernel.Scenario, trace bool) *kernel.Result {
 				if err != nil && strings.Contains(err.Error(), "locking machine mutex in time") {
 					s.Fail("C12.lockup@"+name, "after transient send errors in honest traffic an honest update on %s could not lock the machine mutex within 30 simulated seconds", name)
 				}
+				if err != nil && classify(err) == "timeout" && !strings.Contains(err.Error(), "locking machine mutex in time") {
+					s.Fail("C12.unresponsive@"+name, "after transient send errors in honest traffic an honest update on %s between two honest clients got no answer: %v", name, err)
+				}
 				s.Count("probe.probe_"+classify(err), 1)
 			case <-tm.C:
 				s.Fail("C12.lockup@"+name, "after transient send errors in honest traffic an honest request on %s did not return within 120 simulated seconds", name)
